@@ -439,12 +439,20 @@ def r8_isa_carries_writer_delimiters(ctx):
         yield o
 
 
+def r9_trailers_regenerated_with_true_counts(ctx):
+    """the X12 written back regenerates SE/GE/IEA from the writer's counters: they must be the counts the reader compares with (C11.R2, shared)"""
+    from . import c11
+    for o in c11.r2_counts(ctx):
+        yield o
+
+
 RULES = [
     Rule('C08.R1', 'XML vocabulary agreement writer<->reader; every element id designates its own position', r1_vocabulary, floor=11000),
     Rule('C08.R2', 'content/attribute escaping: & first, <, quote char; every value passes its escape', r2_escaping, floor=9),
     Rule('C08.R3', 'segment/composite push-pop balance (post-dominance)', r3_balance, floor=4),
     Rule('C08.R4', 'same emptiness predicate on both sides; every <seg> converted in order', r4_empty_agreement, floor=3),
     Rule('C08.R5', 'loop nesting is derived from the matched node at every call; no other state between segments', r5_nesting_from_current_node, floor=3),
+    Rule('C08.R9', 'shared with C11.R2: regenerated trailer counts are the true counts', r9_trailers_regenerated_with_true_counts, floor=10),
     Rule('C08.R8', 'shared with C11.R4: the ISA written back carries the writer\'s separators', r8_isa_carries_writer_delimiters, floor=1),
     Rule('C08.R7', 'shared with C18.R2: XML writer state is per instance (no mutated class/module-level object)', r7_writer_state_per_instance, floor=3),
     Rule('C08.R6', 'DOCTYPE precedes the root element; the root is always opened', r6_prolog_order, floor=2),
